@@ -76,25 +76,25 @@ mutual
 end
 
 mutual
-  theorem inSel_spread_mem : ∀ (x : Selection) (n : Name) (dirs : List Directive) (p : Pos),
+  theorem inSel_spread_memL : ∀ (x : Selection) (n : Name) (dirs : List Directive) (p : Pos),
       InSel x (.sel (.spread n dirs p)) → n ∈ Spec.spreadsOfSel x
     | .field al nm args ds sub q, n, dirs, p, h => by
       cases h with
-      | fieldSub _ _ _ _ _ _ _ hs => simp only [Spec.spreadsOfSel]; exact inSels_spread_mem sub n dirs p hs
+      | fieldSub _ _ _ _ _ _ _ hs => simp only [Spec.spreadsOfSel]; exact inSels_spread_memL sub n dirs p hs
     | .spread nm ds q, n, dirs, p, h => by
       cases h with
       | self => simp [Spec.spreadsOfSel]
     | .inline tc ds sub q, n, dirs, p, h => by
       cases h with
-      | inlineSub _ _ _ _ _ hs => simp only [Spec.spreadsOfSel]; exact inSels_spread_mem sub n dirs p hs
-  theorem inSels_spread_mem : ∀ (xs : Selections) (n : Name) (dirs : List Directive) (p : Pos),
+      | inlineSub _ _ _ _ _ hs => simp only [Spec.spreadsOfSel]; exact inSels_spread_memL sub n dirs p hs
+  theorem inSels_spread_memL : ∀ (xs : Selections) (n : Name) (dirs : List Directive) (p : Pos),
       InSels xs (.sel (.spread n dirs p)) → n ∈ Spec.spreadsOfSels xs
     | .nil, _, _, _, h => by cases h
     | .cons x rest, n, dirs, p, h => by
       simp only [Spec.spreadsOfSels, List.mem_append]
       cases h with
-      | head _ _ _ hx => exact Or.inl (inSel_spread_mem x n dirs p hx)
-      | tail _ _ _ hx => exact Or.inr (inSels_spread_mem rest n dirs p hx)
+      | head _ _ _ hx => exact Or.inl (inSel_spread_memL x n dirs p hx)
+      | tail _ _ _ hx => exact Or.inr (inSels_spread_memL rest n dirs p hx)
 end
 
 theorem nameReach_opReaches (d : QueryDoc) (op : OperationDef) (n : Name)
